@@ -602,6 +602,11 @@ func Run() int {
 	e.sweep("I", func(emit func(Case) bool) { skippedCyclic = genImports(emit, fallback) })
 	e.sweep("N", genNearMiss)
 	if thorough {
+		e.sweep("L", func(emit func(Case) bool) { genLong(emit, []int{12, 24, 48, 96, 200}) })
+	} else {
+		e.sweep("L", func(emit func(Case) bool) { genLong(emit, []int{24, 48}) })
+	}
+	if thorough {
 		e.sweep("B", func(emit func(Case) bool) { genBytes(emit, 2, 2, 3) })
 		e.sweep("T", func(emit func(Case) bool) {
 			genTokens(emit, append(append([]string{}, coreTokens...), moreTokens...), 0, 3, "alphabet=50")
@@ -718,7 +723,7 @@ func Run() int {
 	if thorough {
 		tierRule = "thorough: B = all byte strings of length <=2 over 256 values as main and as imported file, Bclass = length 3 over a REDUCED alphabet of 42 class representatives (256^3 x 2 targets does not fit the time budget); T = all sequences of length <=3 over 50 lexemes and of length 4 over 30 lexemes, with and without a declaring prelude (length 4: shorter prelude without the multi-value function); E1 = every single lexeme edit of 150 valid programs (programs over 200 lexemes: delete/duplicate/swap only); E2 = every pair of edits (delete, duplicate, swap, replace by 8 lexemes) within a window of 3 lexemes of 40 valid programs; N; I"
 	}
-	r.Set("rule", tierRule+"; N = near-miss catalogue (every value position x every filler incl. void call, multi-value call, slice, app call; every construct with one lexeme missing); I = all 2^9 import graphs over 3 files incl. self-loops and cycles plus missing/directory/unreadable files; everything for both targets. A case is distinct if its (source tree, main, target) differs; non-trivial if the main file is not empty. Oracle: exactly one of (script, nil) / (\"\", error with text); no panic, no unbounded recursion, no hang, no worker death.")
+	r.Set("rule", tierRule+"; N = near-miss catalogue (every value position x every filler incl. void call, multi-value call, slice, app call; every construct with one lexeme missing); L = every repeatable / nestable production of the grammar repeated n times in a minimal program (operator chains per operator and in an argument, groups, negations, nested calls / builtins / subscripts, argument / result / definition lists, every block kind nested, else-if chains, cases, 19 statement kinds in sequence at top level and in a function, definitions, functions, call chains, long literals / identifiers / comments / blank runs, pipes, unclosed constructs; n = 24, 48 in quick, 12..200 in thorough); I = all 2^9 import graphs over 3 files incl. self-loops and cycles plus missing/directory/unreadable files; everything for both targets. A case is distinct if its (source tree, main, target) differs; non-trivial if the main file is not empty. Oracle: exactly one of (script, nil) / (\"\", error with text); no panic, no unbounded recursion, no hang, no worker death.")
 	r.Assumef("unbounded recursion is reported when (*Parser).parse nests deeper than %d (depth counter inserted by a build overlay generated from the current parser.go) or, without the counter, when the goroutine stack exceeds its limit (64 MiB with the counter, 8 MiB without); a repair that merely bounds the import depth at >= %d would be misreported", DepthLimit, DepthLimit)
 	r.Assumef("hang = no answer within %d s, confirmed by one re-run alone; typical cases take < 10 ms", int(e.watchdog.Seconds()))
 	r.Assumef("unreadable files cannot be produced when the check runs as root; such cases are skipped and counted in skipped_unspecified")
